@@ -270,6 +270,10 @@ func gen(t *rapid.T) Case {
 					any = true
 					start := rapid.IntRange(0, nd-1).Draw(t, "start")
 					stop := rapid.IntRange(start+1, nd+3).Draw(t, "stop")
+					if rapid.IntRange(0, 7).Draw(t, "farStop") == 0 {
+						// "to the end" written as a very large stop
+						stop = rapid.SampledFrom(farStops).Draw(t, "far")
+					}
 					step := rapid.IntRange(1, 4).Draw(t, "step")
 					if rapid.IntRange(0, 14).Draw(t, "empty") == 0 {
 						stop = rapid.IntRange(0, start).Draw(t, "estop")
@@ -665,6 +669,9 @@ func TestRoundTripHistories(t *testing.T) { pbt.Run(t, gen, check) }
 
 type SelCase struct{ N, Start, Stop, Step int }
 
+// stops far beyond any extent: the "up to the end" idiom (the arithmetic must not overflow)
+var farStops = []int{1000, 1<<31 - 1, 1 << 31, 1 << 40, 1 << 62, math.MaxInt - 1, math.MaxInt}
+
 func checkSel(c SelCase) (r pbt.Result) {
 	want := 0
 	for i := c.Start; i < c.Stop && i < c.N; i += c.Step {
@@ -694,6 +701,14 @@ func TestSelectionHelpersExhaustive(t *testing.T) {
 	for N := 1; N <= 12; N++ {
 		for start := 0; start < N; start++ {
 			for stop := 0; stop <= N+3; stop++ {
+				for step := 1; step <= 5; step++ {
+					n++
+					if !pbt.Direct(t, SelCase{N, start, stop, step}, checkSel) {
+						return
+					}
+				}
+			}
+			for _, stop := range farStops {
 				for step := 1; step <= 5; step++ {
 					n++
 					if !pbt.Direct(t, SelCase{N, start, stop, step}, checkSel) {
